@@ -24,16 +24,16 @@ deriving DecidableEq, Repr
 
 structure Canvas where
   geo : Geom
-  bytes : List (BitVec 8)
+  bytes : Array (BitVec 8)
 deriving DecidableEq, Repr
 
 /-- `NewImage(width,height)` + `init()` (bounding box = whole canvas). -/
 def newCanvas (w h : Nat) : Canvas :=
   let wib := (w + 7) / 8
   { geo := { W := w, H := h, wib := wib, bx := 0, byy := 0, bw := w, bh := h, inv := false },
-    bytes := List.replicate (wib * h) 0 }
+    bytes := Array.replicate (wib * h) 0 }
 
-def Canvas.WF (c : Canvas) : Prop := c.geo.W ≤ c.geo.wib * 8 ∧ c.bytes.length = c.geo.wib * c.geo.H
+def Canvas.WF (c : Canvas) : Prop := c.geo.W ≤ c.geo.wib * 8 ∧ c.bytes.size = c.geo.wib * c.geo.H
 
 def wMax (g : Geom) : Int := if g.bw + g.bx > g.W then g.W else g.bw + g.bx
 def hMax (g : Geom) : Int := if g.bh + g.byy > g.H then g.H else g.bh + g.byy
@@ -53,10 +53,10 @@ def drawPixel (c : Canvas) (x y : Int) (col : Bool) : Canvas :=
   let Y := y + c.geo.byy
   if inClip c.geo X Y then
     let index : Int := Y * c.geo.wib + X.tdiv 8
-    if 0 ≤ index ∧ index < c.bytes.length then
+    if 0 ≤ index ∧ index < c.bytes.size then
       let s : Nat := (7 - X.tmod 8).toNat
       let i := index.toNat
-      { c with bytes := c.bytes.set i (setBit (c.bytes.getD i 0) s (col != c.geo.inv)) }
+      { c with bytes := c.bytes.setIfInBounds i (setBit (c.bytes.getD i 0) s (col != c.geo.inv)) }
     else c
   else c
 
@@ -66,10 +66,10 @@ def drawPixelPinned (c : Canvas) (x y : Int) (col : Bool) : Canvas :=
   let Y := y + c.geo.byy
   if X < wMax c.geo ∧ Y < hMax c.geo then
     let index : Int := Y * c.geo.wib + X.tdiv 8
-    if 0 ≤ index ∧ index < c.bytes.length then
+    if 0 ≤ index ∧ index < c.bytes.size then
       let s : Nat := (7 - X.tmod 8).toNat
       let i := index.toNat
-      { c with bytes := c.bytes.set i (setBit (c.bytes.getD i 0) s (col != c.geo.inv)) }
+      { c with bytes := c.bytes.setIfInBounds i (setBit (c.bytes.getD i 0) s (col != c.geo.inv)) }
     else c
   else c
 
